@@ -93,6 +93,8 @@ def run_demo():
     return ok, log
 
 apply()
+# the patch as it applies to the current HEAD (it may have needed a 3-way merge)
+rebased = sh("git diff", WT)[1]
 rc, out = sh("go build ./...", WT)
 meta["builds"] = rc == 0
 if rc:
@@ -132,7 +134,7 @@ meta["ran"] = [f"{mode} patch.diff in a scratch worktree at {head[:7]}", "go bui
 out_dir = f"/verif/seeded/{pid}-{n}"
 if valid or "--keep" in opt:
     os.makedirs(out_dir, exist_ok=True)
-    shutil.copy(patch, os.path.join(out_dir, "patch.diff"))
+    open(os.path.join(out_dir, "patch.diff"), "w").write(rebased if mode != "git apply" and rebased.strip() else open(patch).read())
     for f in demos: shutil.copy(f, os.path.join(out_dir, os.path.basename(f)))
     json.dump(meta, open(os.path.join(out_dir, "meta.json"), "w"), indent=1)
 det = {c: v["detected"] for c, v in meta["checker"].items()}
